@@ -1383,9 +1383,10 @@ def _set_decorators() -> Dict[str, Callable[[_FN], _FN]]:
         return clear
 
     def update(fn):
-        def update(self, value):
-            for item in list(value):
-                self.add(item)
+        def update(self, *values):
+            for value in values:
+                for item in list(value):
+                    self.add(item)
 
         _tidy(update)
         return update
@@ -1402,9 +1403,10 @@ def _set_decorators() -> Dict[str, Callable[[_FN], _FN]]:
         return __ior__
 
     def difference_update(fn):
-        def difference_update(self, value):
-            for item in list(value):
-                self.discard(item)
+        def difference_update(self, *values):
+            for value in values:
+                for item in list(value):
+                    self.discard(item)
 
         _tidy(difference_update)
         return difference_update
@@ -1421,8 +1423,8 @@ def _set_decorators() -> Dict[str, Callable[[_FN], _FN]]:
         return __isub__
 
     def intersection_update(fn):
-        def intersection_update(self, other):
-            want, have = self.intersection(other), set(self)
+        def intersection_update(self, *others):
+            want, have = self.intersection(*others), set(self)
             remove, add = have - want, want - have
 
             for item in remove:
